@@ -40,7 +40,7 @@ def vacuity(c):
             'runs_with_history_split_over_rows']
     missing = [k for k in need if not c.get(k)]
     if missing:
-        raise common.Broken(f'vacuous run, never reached: {missing}')
+        common.vacuous(PROP, res, f'vacuous run, never reached: {missing}')
 
 
 def run(tier, seed, started):
